@@ -19,12 +19,14 @@ from sigfacts import strip_comments, matching
 # (file, function name) of the leaf functions the models rely on
 LEAVES = [
     ("src/lib.rs", "round_up_to"),
+    ("src/lib.rs", "round_up_to_unchecked"),
     ("src/lib.rs", "round_down_to"),
     ("src/lib.rs", "round_mut_ptr_down_to"),
     ("src/lib.rs", "is_pointer_aligned_to"),
     ("src/lib.rs", "allocation_limit_remaining"),
     ("src/lib.rs", "chunk_fits_under_limit"),
     ("src/lib.rs", "new_chunk_memory_details"),
+    ("src/lib.rs", "try_alloc_layout_fast"),
     ("src/collections/raw_vec.rs", "amortized_new_size"),
 ]
 CONST_FILE = "src/lib.rs"
@@ -227,6 +229,15 @@ class Parser:
                     if self.peek() == ";":
                         self.eat()
                     return "(ELet %s (EIf %s %s %s) %s)" % (q(v), c, b1, b2, self.stmts())
+            if after != "else" and self.t[self.i + 1][1] == "return":
+                # `if c { return e; }` followed by the rest of the block
+                self.eat("{")
+                self.eat("return")
+                r = self.expr()
+                if self.peek() == ";":
+                    self.eat()
+                self.eat("}")
+                return "(EIf %s (EReturn %s) %s)" % (c, r, self.stmts())
             self.i = save
         e = self.expr()
         if self.peek() == ";":
@@ -390,15 +401,25 @@ class Parser:
             self.eat("else")
             b = self.primary(no_struct) if self.peek() == "if" else self.block()
             return "(EIf %s %s %s)" % (c, a, b)
+        if tok == "return":
+            self.eat()
+            return "(EReturn %s)" % self.expr()
         if tok == "match":
             self.eat()
             s = self.expr(no_struct=True)
             self.eat("{")
             some_br = none_br = None
+            ord_br = {}
             x = "_"
             while self.peek() != "}":
                 pat = self.eat()
-                if pat in ("Some", "Ok"):
+                while self.peek() == "::":
+                    self.eat()
+                    pat = self.eat()
+                if pat in ("Less", "Equal", "Greater"):
+                    self.eat("=>")
+                    ord_br[pat] = self.block() if self.peek() == "{" else self.expr()
+                elif pat in ("Some", "Ok"):
                     self.eat("(")
                     x = self.eat()
                     self.eat(")")
@@ -414,6 +435,12 @@ class Parser:
                 if self.peek() == ",":
                     self.eat()
             self.eat("}")
+            if ord_br:
+                m = re.match(r'^\(EMeth1 (.*) "cmp" (.*)\)$', s)
+                if not m or set(ord_br) != {"Less", "Equal", "Greater"}:
+                    raise Unsupported("match over an Ordering that is not `a.cmp(&b)` with three arms")
+                a, b = split_cmp(s)
+                return "(EMatchOrd %s %s %s %s %s)" % (a, b, ord_br["Less"], ord_br["Equal"], ord_br["Greater"])
             if some_br is None or none_br is None:
                 raise Unsupported("match is not over Some/None")
             return "(EMatchOpt %s %s %s %s)" % (s, q(x), some_br, none_br)
@@ -463,6 +490,27 @@ class Parser:
             # a function or variant named by path (CapacityOverflow, allocation_size_overflow, ...)
             return "(EPath %s)" % q(name)
         raise Unsupported("token %r" % tok)
+
+
+def split_cmp(term):
+    """(EMeth1 A "cmp" B) -> (A, B), splitting at the top-level occurrence of "cmp" """
+    inner = term[len("(EMeth1 "):-1]
+    depth = 0
+    i = 0
+    in_str = False
+    while i < len(inner):
+        c = inner[i]
+        if c == '"':
+            in_str = not in_str
+        elif not in_str:
+            if c == "(":
+                depth += 1
+            elif c == ")":
+                depth -= 1
+            elif c == " " and depth == 0 and inner[i + 1:].startswith('"cmp" '):
+                return inner[:i], inner[i + 1 + len('"cmp" '):]
+        i += 1
+    raise Unsupported("cmp")
 
 
 def find_fn(txt, name):
